@@ -521,7 +521,8 @@ def validate_traces(chk: Check, traces, label, chunks=8, timeout=1500):
     a machinery failure (TlcError)."""
     if not traces:
         return {}, []
-    chunks = max(1, min(chunks, len(traces) // 50 + 1))
+    par = max(1, min(chunks, len(traces) // 50 + 1))          # TLC processes at a time
+    chunks = max(par, (len(traces) + 1499) // 1500)            # at most 1500 traces per invocation (bounded heap)
     parts = [traces[i::chunks] for i in range(chunks)]
     verdicts, results = {}, []
     lock = threading.Lock()
@@ -534,7 +535,7 @@ def validate_traces(chk: Check, traces, label, chunks=8, timeout=1500):
             for tid, c, events in part:
                 f.write(json.dumps({"tid": tid, "c": cfg_json(c), "ev": events}, separators=(",", ":")) + "\n")
         try:
-            res = tlc.run(TRACE, TRACE_CFG, chk.tmp, workers=1, timeout=timeout,
+            res = tlc.run(TRACE, TRACE_CFG, chk.tmp, workers=1, timeout=timeout, jvm=("-Xmx2g",),
                           env={"C05_TRACES": str(f_in), "C05_VERDICTS": str(f_out)})
             out = res.output
         except tlc.TlcError as ex:
@@ -569,7 +570,7 @@ def validate_traces(chk: Check, traces, label, chunks=8, timeout=1500):
             verdicts.update(got)
             results.append(res)
 
-    with ThreadPoolExecutor(max_workers=chunks) as ex:
+    with ThreadPoolExecutor(max_workers=par) as ex:
         list(ex.map(one, range(chunks)))
     return verdicts, results
 
@@ -628,7 +629,7 @@ def check_devs(chk: Check):
 
     def one(d):
         k, name, owners = d
-        res = tlc.run(MC, MC.parent / f"MC_BarLoop_dev{k}.cfg", chk.tmp, workers=2, timeout=600)
+        res = tlc.run(MC, MC.parent / f"MC_BarLoop_dev{k}.cfg", chk.tmp, workers=2, timeout=600, jvm=("-Xmx1g",))
         return name, owners, res
 
     with ThreadPoolExecutor(max_workers=len(DEVS)) as ex:
@@ -644,7 +645,7 @@ def explore(chk: Check, cfg_name, timeout):
     """Exhaustive run with export of the terminal states: [(c, events)]."""
     f = chk.tmp / f"export_{cfg_name}.ndjson"
     res = tlc.run(MC, MC.parent / cfg_name, chk.tmp, workers=1, timeout=timeout, env={"C05_EXPORT": str(f)},
-                  args=("-coverage", "1"))
+                  args=("-coverage", "1"), jvm=("-Xmx4g",))
     chk.add_tlc(res, cfg_name)
     chk.spec_violation(res, cfg_name)
     terms = []
@@ -665,7 +666,7 @@ def last_states(tla, cfg, tmp, num, depth, seed, workers, timeout):
     d = tmp / ("sim_c05_" + str(time.time_ns()))
     d.mkdir(parents=True)
     per = max(1, (num + workers - 1) // workers)
-    res = tlc.run(tla, cfg, tmp, workers=workers, timeout=timeout,
+    res = tlc.run(tla, cfg, tmp, workers=workers, timeout=timeout, jvm=("-Xmx2g",),
                   args=("-simulate", f"file={d}/tr,num={per}", "-depth", str(depth), "-seed", str(seed)))
     out = []
     for f in sorted(d.iterdir()):
@@ -695,6 +696,15 @@ def unjson_tla(v):
 
 # ------------------------------------------------------------------------------------------------
 def run(chk: Check) -> int:
+    try:
+        return _run(chk)
+    except BaseException:  # machinery failure: do not leave the scratch directory behind
+        import shutil
+        shutil.rmtree(chk.tmp, ignore_errors=True)
+        raise
+
+
+def _run(chk: Check) -> int:
     quick = chk.tier == "quick"
     rnd = random.Random(chk.seed)
     # 1.-3. TLC: non-vacuity companions, exhaustive exploration(s) with export, deep simulation - concurrently
@@ -774,7 +784,7 @@ def run(chk: Check) -> int:
                           "realistic_mix_with_UniLpMarket": n_real}
     chk.extra["events_validated"] = nevents
     # 6. the binding is demonstrated: a corrupted field and a deleted event must be rejected
-    binding_selfcheck(chk, cases, runs, rnd)
+    binding_selfcheck(chk, cases, runs, rnd, verdicts)
     return chk.finish(
         "a case is one (grid, market mix, triggers, script) executed by the real Actuator.run under the recorder; its ndjson "
         "trace is validated event by event by TLC (Trace_BarLoop) and, for TLC-enumerated scripts, compared with the predicted "
@@ -782,9 +792,10 @@ def run(chk: Check) -> int:
         "trigger firing or update-emitted record; enumerated cases are exhaustive within the per-configuration choice budget")
 
 
-def binding_selfcheck(chk: Check, cases, runs, rnd):
-    """Corrupt one recorded field / delete one event in real traces: TLC must reject every one of them."""
-    pool = [tid for tid, (leg, c, s, _) in enumerate(cases) if not runs[tid][1] and any(e["e"] == "ntf" for e in runs[tid][0])]
+def binding_selfcheck(chk: Check, cases, runs, rnd, verdicts):
+    """Corrupt one recorded field / delete one event in real, ACCEPTED traces: TLC must reject every one of them."""
+    pool = [tid for tid, (leg, c, s, _) in enumerate(cases)
+            if not runs[tid][1] and verdicts[tid]["verdict"] == "ok" and any(e["e"] == "ntf" for e in runs[tid][0])]
     pool = rnd.sample(pool, min(12, len(pool)))
     mut, what = [], []
     for tid in pool:
@@ -816,6 +827,9 @@ def binding_selfcheck(chk: Check, cases, runs, rnd):
             mut.append((len(mut), c, e2))
             what.append(name)
     if not mut:
+        if chk.violations:  # nothing accepted to start from; the violations are the result of this run
+            chk.extra["binding_selfcheck"] = "skipped: no accepted trace with a notification"
+            return
         raise RuntimeError("binding self-check: no trace with a notification to corrupt")
     verdicts, _ = validate_traces(chk, mut, "selfcheck", chunks=2)
     accepted = [what[t] for t in range(len(mut)) if verdicts[t]["verdict"] == "ok"]
